@@ -586,7 +586,6 @@ def run(ctx):
     for ns in ((2, 3), (3, 3), (2, 2), (4, 2), (1, 5), (2, 2, 3)) + (((2, 7), (3, 4, 2)) if not ctx.quick else ()):
         cases.append({'kind': 'fst', 'ns': ns})
     explore.pmap(ctx, _dispatch, cases, chunk=1)
-    shutil.rmtree(os.path.join(SCRATCH), ignore_errors=True) if False else None
     ctx.tick(evaluations=len(cases))
     for c in (cases[0], cases[len(cases) // 2], cases[-1]):
         ctx.sample(c)
